@@ -364,7 +364,13 @@ impl<S: WebSocket, T: TimestampProvider> Task<S, T> {
         }
         // Finally, we send EOF to all established streams.
         self.flows.write().drain().for_each(|(flow_id, slot)| {
-            self.close_flow_local(slot, flow_id, true);
+            if let FlowSlot::Requested(sender) = slot {
+                // Not a rejection by the peer (which `None` would mean, and which counts
+                // towards `FlowIdRejected`): dropping the sender reports `Closed`.
+                drop(sender);
+            } else {
+                self.close_flow_local(slot, flow_id, true);
+            }
         });
         // To clean up, we also drain the `dropped_flows_rx` channel
         dropped_flows_rx.close();
